@@ -27,6 +27,12 @@ BLIND = {  # did the owning check exist, unchanged, before the change was seen?
     'b5-C10': 'yes - MISSED (only a false report from C12.R2, since fixed); then C10.R6 table',
     'b5-C11': 'yes - caught (C11.R1 purity, C11.R3/R4; also C03.R10, C14)',
     'b5-C13': 'yes - MISSED by C13; C11/C03/C08/C14 reported; C13.R6-R8 added',
+    'b6-C04': 'yes - caught (C04.R7 = C17.R2 formula identity)',
+    'b6-C12': 'yes - MISSED by C12 (C11.R3 reported); then C12.R7 session round-trip table',
+    'b6-C14': 'yes - MISSED (C14.R4 did not see set algebra on dict views), then fixed',
+    'b6-C17': 'yes - caught (C17.R1 clip before cast); C17.R11 scalar table added as a shape-independent second opinion',
+    'b6-C18': 'yes - caught (C18.R3)',
+    'b6-C19': 'yes - caught by a signature accident; entry-level multi-subgraph graph-info table added (C19.R1)',
     'b3-C18': 'yes (written minutes before) - MISSED, then fixed', 'b3-C19': 'yes - caught by C10.R2 only, C19.R8 added', 'b3-C01': 'yes - MISSED (declared blind spot), then fixed',
 }
 
